@@ -22,12 +22,13 @@ static const uint64_t NOFAULT = ~0ull;
 enum { BUFCAP = 512 };
 static uint8_t g_buf[BUFCAP];
 
-struct FileDesc { const unsigned char *bytes, *cls; unsigned len, nchunks; const unsigned short *chunk_off, *chunk_maxh, *chunk_limit; const unsigned char *chunk_kind; };
+struct FileDesc { const unsigned char *bytes, *cls; unsigned len, nchunks; const unsigned short *chunk_off, *chunk_maxh, *chunk_limit; const unsigned char *chunk_kind;
+                  const unsigned short *mr, *compr; unsigned n_mr, n_compr; };
 static FileDesc file_desc(unsigned which) {
   FileDesc d;
-  if (which == FM_EMPTY) { d.bytes = F_EMPTY; d.cls = F_EMPTY_CLS; d.len = F_EMPTY_LEN; d.nchunks = F_EMPTY_NCHUNKS; d.chunk_off = F_EMPTY_CHUNK_OFF; d.chunk_maxh = F_EMPTY_CHUNK_MAXH; d.chunk_limit = F_EMPTY_CHUNK_LIMIT; d.chunk_kind = F_EMPTY_CHUNK_KIND; }
-  else if (which == FM_TET) { d.bytes = F_TET; d.cls = F_TET_CLS; d.len = F_TET_LEN; d.nchunks = F_TET_NCHUNKS; d.chunk_off = F_TET_CHUNK_OFF; d.chunk_maxh = F_TET_CHUNK_MAXH; d.chunk_limit = F_TET_CHUNK_LIMIT; d.chunk_kind = F_TET_CHUNK_KIND; }
-  else { d.bytes = F_TETP; d.cls = F_TETP_CLS; d.len = F_TETP_LEN; d.nchunks = F_TETP_NCHUNKS; d.chunk_off = F_TETP_CHUNK_OFF; d.chunk_maxh = F_TETP_CHUNK_MAXH; d.chunk_limit = F_TETP_CHUNK_LIMIT; d.chunk_kind = F_TETP_CHUNK_KIND; }
+  if (which == FM_EMPTY) { d.bytes = F_EMPTY; d.cls = F_EMPTY_CLS; d.len = F_EMPTY_LEN; d.nchunks = F_EMPTY_NCHUNKS; d.chunk_off = F_EMPTY_CHUNK_OFF; d.chunk_maxh = F_EMPTY_CHUNK_MAXH; d.chunk_limit = F_EMPTY_CHUNK_LIMIT; d.chunk_kind = F_EMPTY_CHUNK_KIND; d.mr = F_EMPTY_MR; d.n_mr = F_EMPTY_N_MR; d.compr = F_EMPTY_OFFS_CLS_COMPRESSION; d.n_compr = F_EMPTY_N_CLS_COMPRESSION; }
+  else if (which == FM_TET) { d.bytes = F_TET; d.cls = F_TET_CLS; d.len = F_TET_LEN; d.nchunks = F_TET_NCHUNKS; d.chunk_off = F_TET_CHUNK_OFF; d.chunk_maxh = F_TET_CHUNK_MAXH; d.chunk_limit = F_TET_CHUNK_LIMIT; d.chunk_kind = F_TET_CHUNK_KIND; d.mr = F_TET_MR; d.n_mr = F_TET_N_MR; d.compr = F_TET_OFFS_CLS_COMPRESSION; d.n_compr = F_TET_N_CLS_COMPRESSION; }
+  else { d.bytes = F_TETP; d.cls = F_TETP_CLS; d.len = F_TETP_LEN; d.nchunks = F_TETP_NCHUNKS; d.chunk_off = F_TETP_CHUNK_OFF; d.chunk_maxh = F_TETP_CHUNK_MAXH; d.chunk_limit = F_TETP_CHUNK_LIMIT; d.chunk_kind = F_TETP_CHUNK_KIND; d.mr = F_TETP_MR; d.n_mr = F_TETP_N_MR; d.compr = F_TETP_OFFS_CLS_COMPRESSION; d.n_compr = F_TETP_N_CLS_COMPRESSION; }
   return d;
 }
 // constant-size copies (ll2c lowers them to per-byte assignments; a run-time-size memcpy would make the contents opaque to symex)
@@ -127,12 +128,10 @@ static __attribute__((noinline)) void do_case(unsigned i) {
     // or the smallest constraint-violating value for the fields that have a constraint)
     bool one = v_param(2) == 1;
     unsigned k = one ? n : n / N_SLOTS, slot = one ? 0 : n % N_SLOTS;
-    unsigned off = 0, cnt = 0; bool found = false;
-    for (unsigned o = 0; o < d.len; ++o) {
-      bool in = g_mode == M_SUBST ? (d.cls[o] != CLS_FREE && d.cls[o] != CLS_COMPRESSION) : d.cls[o] == CLS_COMPRESSION;
-      if (in) { if (cnt == k) { off = o; found = true; } ++cnt; }
-    }
-    if (!found) { v_witness("C18 case outside the must-reject set"); return; }
+    const unsigned short *list = g_mode == M_SUBST ? d.mr : d.compr;
+    unsigned nlist = g_mode == M_SUBST ? d.n_mr : d.n_compr;
+    if (k >= nlist) { v_witness("C18 case outside the must-reject set"); return; }
+    unsigned off = list[k];
     unsigned cls = d.cls[off];
     unsigned chunk = 0; for (unsigned c = 0; c < d.nchunks; ++c) if (d.chunk_off[c] <= off) chunk = c;
     unsigned orig = d.bytes[off];
